@@ -33,7 +33,7 @@
 /* X: exp64 | crc */
 #define X_OK (FOFF + 12 <= TL)
 #define PLAUSIBLE(ms) ((ms) > 0 && (ms) <= 10413792000000LL)
-#define NS(ms) ((int64_t)((ms) * 1000000))                 /* only used where ms <= 9.2e12 */
+#define NS(ms) (iora_tp_from_ms(ms))                       /* exact (no wrap) where NS_SAFE(ms) */
 #define NS_SAFE(ms) ((ms) <= 9223372036854LL)
 #define IMPL(a, b) (!(a) || (b))
 
@@ -51,7 +51,7 @@
   st._expiry.has = nondet_bool(); st._expiry.val.expiry = nondet_i64(); st._expiry.val.timerId = nondet_u64(); st._expiry.touched = false; st._expiry.gtouched = false; \
   bool kv_has0 = st._kv.has; iora_vec kv_val0 = st._kv.val; bool ex_has0 = st._expiry.has; ExpiryEntry ex_val0 = st._expiry.val; \
   iora_tp now = nondet_i64(); GK = nondet_size_t(); \
-  G_alloc_cap = REC_CAP; G_step = IORA_STEP_NEXT; G_crc_called = false; G_ifs_boundary = nondet_size_t(); iora_exc = EXC_NONE; IORA_TRUE = 1; \
+  G_alloc_cap = REC_CAP; G_step = IORA_STEP_NEXT; G_crc_called = false; G_skey_made = false; G_ifs_boundary = nondet_size_t(); iora_exc = EXC_NONE; IORA_TRUE = 1; \
   KVStore_load_step(&st, &log, now); \
   bool touched = st._kv.touched || st._expiry.touched; \
   iora_skey LK = st._kv.touched ? st._kv.lastkey : st._expiry.lastkey; \
@@ -124,19 +124,28 @@ void h_step_apply_sd(void)
   __CPROVER_assert(IMPL(touched && OPB == OP_D && LK.is_g, !KV.has && !EX.has), "D8 D: key and expiry removed");
 }
 
-/* proof "step_apply_EX": E and X records (decoding; the expired-at-load / implausible cases are clauses of unit kv_expiry, C12) */
-void h_step_apply_ex(void)
+/* proofs "step_apply_e" / "step_apply_x": E and X records (decoding; the expired-at-load / implausible cases are clauses of unit kv_expiry, C12) */
+void h_step_apply_e(void)
 {
   STEP_SETUP
   __CPROVER_assert(IMPL(COMPLETE && crc_match && OPB == OP_E && KEY_OK && E_OK && PLAUSIBLE(E_EXP), KV.touched && EX.touched), "E1 a complete, CRC-correct, well-formed E record IS applied");
   __CPROVER_assert(IMPL(touched && OPB == OP_E, E_OK && PLAUSIBLE(E_EXP)), "E2 E applied => fields inside the record, expiry plausible");
   __CPROVER_assert(IMPL(touched && OPB == OP_E && LK.is_g && NS_SAFE(E_EXP) && NS(E_EXP) > now, KV.has && KV.val.n == E_VL && EX.has && EX.val.expiry == NS(E_EXP) && EX.val.timerId == 0),
                    "E3 E (not yet expired): key present with |val| == vlen32 and expiry == exp64 ms");
-  __CPROVER_assert(IMPL(touched && OPB == OP_E && LK.is_g && NS_SAFE(E_EXP) && NS(E_EXP) > now && GK < E_VL, KV.val.p[GK] == LOG[P0 + FOFF + 12 + GK]), "E4 E: value bytes == record bytes (arbitrary byte GK)");
   __CPROVER_assert(IMPL(COMPLETE && crc_match && OPB == OP_E && KEY_OK && !(E_OK && PLAUSIBLE(E_EXP)), !touched), "E5 malformed E => skipped");
+}
+void h_step_apply_e_bytes(void)
+{
+  STEP_SETUP
+  __CPROVER_assert(IMPL(touched && OPB == OP_E && LK.is_g && KV.has && GK < E_VL, KV.val.p[GK] == LOG[P0 + FOFF + 12 + GK]), "E4 E: value bytes == record bytes (arbitrary byte GK)");
+}
+void h_step_apply_x(void)
+{
+  STEP_SETUP
   __CPROVER_assert(IMPL(touched && OPB == OP_X, X_OK), "X1 X applied => exp64 inside the record");
   __CPROVER_assert(IMPL(COMPLETE && crc_match && OPB == OP_X && KEY_OK && !X_OK, !touched), "X2 malformed X => skipped");
   __CPROVER_assert(IMPL(OPB == OP_X && touched && LK.is_g, kv_has0), "X3 X is applied only to a present key");
-  __CPROVER_assert(IMPL(COMPLETE && crc_match && OPB == OP_X && KEY_OK && X_OK && E_EXP == IORA_LIMIT_int64_t_min && touched && LK.is_g, UNCHANGED_KV && !EX.has), "X4 X with the no-expiry sentinel (persist): expiry cleared, value untouched");
-  __CPROVER_assert(IMPL(OPB == OP_X && touched && LK.is_g && PLAUSIBLE(E_EXP) && NS_SAFE(E_EXP) && NS(E_EXP) > now, UNCHANGED_KV && EX.has && EX.val.expiry == NS(E_EXP)), "X5 X (future expiry): expiry == exp64 ms, value untouched");
+  __CPROVER_assert(IMPL(OPB == OP_X && touched && LK.is_g && E_EXP == IORA_LIMIT_int64_t_min, UNCHANGED_KV && !EX.has), "X4 X with the no-expiry sentinel (persist): expiry cleared, value untouched");
+  __CPROVER_assert(IMPL(OPB == OP_X && touched && LK.is_g && PLAUSIBLE(E_EXP) && NS_SAFE(E_EXP) && NS(E_EXP) > now, UNCHANGED_KV && EX.has && EX.val.expiry == NS(E_EXP) && EX.val.timerId == 0), "X5 X (future expiry): expiry == exp64 ms, value untouched");
+  __CPROVER_assert(IMPL(COMPLETE && crc_match && OPB == OP_X && KEY_OK && X_OK && kv_has0 && G_skey_made && G_skey_last.is_g && (E_EXP == IORA_LIMIT_int64_t_min || PLAUSIBLE(E_EXP)), EX.touched), "X6 a complete, CRC-correct X record for a present key IS applied");
 }
